@@ -315,6 +315,36 @@ def cases(tier, seed):
         yield {"kind": "many_imports", "files": [("main.pn", main)] + order}
     for i in range(100 if quick else 5000):
         yield {"kind": "soup", "files": [("soup.pn", gen_mutate.token_soup(rng, rng.choice([4, 10, 30])))]}
+    # diagnostics whose subject spans several lines (adjacent string literals, array / structure literals, calls, bracketed
+    # operations): the reported line must be the line the span starts on
+    subjects = {
+        "strings": '"first "\n\t\t"second "\n\t\t"third\\n"',
+        "strings_crlf_like": '"a"\n\n\t\t"b"',
+        "array": "[1,\n\t\t2,\n\t\t3]",
+        "struct": "Pt {\n\t\tx: 1,\n\t\ty: 2,\n\t}",
+        "call": "make(1,\n\t\t2)",
+        "paren": "(flag\n\t\t== flag)",
+        "bool_op": "flag\n\t\t== flag",
+    }
+    pre = "struct Pt\n{\n\tx: i32,\n\ty: i32,\n}\n\nfn make(a: i32, b: i32) -> bool\n{\n\treturn: a == b\n}\n\nfn take(v: u64)\n{\n}\n\n"
+    for name, text in subjects.items():
+        for lead in ("", "// é€ comment\n", "\n\n"):
+            uses = {
+                "init": "fn main()\n{\n\tvar flag = true;\n\tvar v: u64 =\n\t\t%s;\n}\n" % text,
+                "assign": "fn main()\n{\n\tvar flag = true;\n\tvar v: u64 = 0;\n\tv = %s;\n}\n" % text,
+                "argument": "fn main()\n{\n\tvar flag = true;\n\ttake(%s);\n}\n" % text,
+                "return": "fn get() -> u64\n{\n\tvar flag = true;\n\treturn: %s\n}\n" % text,
+                "condition": "fn main()\n{\n\tvar flag = true;\n\tif %s == 1u64\n\t{\n\t}\n}\n" % text,
+            }
+            for use, body in uses.items():
+                yield {"kind": "multiline_subject:%s:%s" % (name, use), "files": [("subject.pn", lead + pre + body)]}
+    # dependency graphs: cyclic ones are rejected with E413/E415/E416, whose text names members of the cycle
+    from . import c11
+    for i in range(200 if quick else 6000):
+        g_rng = common.rng_for(seed, PROP, "depgraph", i)
+        yield {"kind": "depgraph", "files": [("graph.pn", c11.graph_source(g_rng, i)[0])]}
+    for n_, kind_, order_, src in c11.pure_cycle_sources((2, 3, 4) if quick else (1, 2, 3, 4, 5)):
+        yield {"kind": "depcycle", "files": [("cycle.pn", src)]}
 
 
 def replay_file(path):
